@@ -7,7 +7,8 @@ PROPS["C04"] = dict(
          "holds nothing; at the end of the drain nobody is left inside a call (otherwise: lost wake-up), no lock record and no waiter-table entry "
          "is left, every Locker of a live provider can TryLock+Unlock again; an attempt started after Shutdown returned never acquires; "
          "Lock/LockWithCtx never fail without cancel/shutdown. A redis unit runs free hand-off chains (2..6 workers x <= 12 rounds on 2..4 Lockers) over the Redis backend on its own "
-         "miniredis: every blocking attempt with a live context succeeds, nothing is left behind, all Lockers can acquire again. non-trivial = an Unlock happened while another Locker object was parked in the "
+         "miniredis: every blocking attempt with a live context succeeds, nothing is left behind, all Lockers can acquire again. A real-clock unit (laterenewal) unlocks while a lease renewal is in flight (held before / after the storage applied it), "
+         "optionally re-locks the same Locker at once with its Create in flight while the late renewal completes: the record is gone after Unlock, the re-lock and a later contender acquire, nothing is left at the end. non-trivial = an Unlock happened while another Locker object was parked in the "
          "storage wait, or a cancel hit a parked attempt, or a shutdown hit a provider with parked attempts; distinct = hash of the case; "
          "classes cancel:<position> give the histogram of cancel positions",
     assumptions=["'eventually acquires' is decided as 'acquires before quiescence in drain mode' - exact for this schedule model, says nothing about fairness",
@@ -15,6 +16,7 @@ PROPS["C04"] = dict(
                  "the controlled unit uses the in-memory store only (the bubble needs channels created inside it); the Redis unit samples real schedules"],
     units=[
         dict(name="rapid", run="^TestC04Rapid$", checks=(8000, 60000), shards=(2, 16), timeout=(300, 1800)),
+        dict(name="laterenewal", run="^TestC04LateRenewal$", shards=1, timeout=(300, 900)),
         dict(name="redis", run="^TestC04Redis$", checks=(25, 200), shards=(2, 8), timeout=(300, 1800), shrinktime="20s"),
     ],
 )
